@@ -142,6 +142,35 @@ def make_spec(stream, rng, edge_index=None):
         spec["cold"]["capacity"] = spec["hot"]["capacity"] + 5
         spec["timestep"] = unit
         spec["timestep_explicit"] = True
+    elif stream == "fracunits":
+        # a coarser unit with durations that are NOT whole multiples of it (90 s under 'minutes' = 1.5 steps): the
+        # parsed duration is fractional.  Outside the model's envelope (whole quantities; the buffer then takes in
+        # ceil(duration) x rate, so C07's volume clause does not hold of the unchanged code), but the clauses of C04,
+        # C05 and C06 that do hold there are judged by the monitors alone, without the model.
+        spec = simgen.gen_spec(rng, pairing=rng.choice(["queue", "batch", "queue"]))
+        unit = rng.choice(["minutes", 30, 60, 2, 4])
+        m = {"minutes": 60}.get(unit, unit)
+        for o in spec["observations"]:
+            o["start"] = o["start"] * m + (m // 2 if rng.random() < 0.4 else 0)
+            o["duration"] = o["duration"] * m + (m // 2 if rng.random() < 0.7 else 0)
+            for e in o["workflow"]["edges"]:
+                e[2] = rng.choice([0, 8 * m, 16 * m])
+            for nd in o["workflow"]["nodes"]:
+                nd["comp"] *= m
+                if "task_data" in nd:
+                    nd["task_data"] *= m
+        spec["hot"]["capacity"] = int(sum(o["rate"] * (o["duration"] + m) for o in spec["observations"]) / 0.6) + 5
+        spec["cold"]["capacity"] = spec["hot"]["capacity"] + 5
+        spec["timestep"] = unit
+        spec["timestep_explicit"] = True
+        spec["delay"] = None
+        opt["replay"] = False
+        opt["only_props"] = ["C04", "C05", "C06", "C08"]
+        # of C08 only what is decided at the admission instant (hold times are whole steps: with a fractional
+        # duration the unchanged code holds the machines for the duration rounded up)
+        opt["only_kinds"] = {"C08": ["started-before-planned-start", "admitted-without-arrays", "admitted-without-machines",
+                                     "admitted-over-ingest-limit", "admitted-without-hot-space", "admitted-without-cold-space",
+                                     "admitted-on-promised-machines", "observation-admitted-twice", "admitted-not-waiting"]}
     elif stream == "big":
         spec = simgen.gen_spec(rng)
         nm = rng.randint(11, 16)
@@ -242,7 +271,7 @@ def make_spec(stream, rng, edge_index=None):
         spec["delay"] = None
         obs = spec["observations"]
         kinds = ["threshold", "handover", "threshold2", "hotfit", "coldfit", "machines", "ingestlimit", "arrays", "rate",
-                 "coldshort", "ingestlimit3", "ratefrac", "emptywf", "stalecheck", "hugecap", "doubleadmit", "coldinflight", "toowide"]
+                 "coldshort", "ingestlimit3", "ratefrac", "emptywf", "stalecheck", "hugecap", "doubleadmit", "coldinflight", "toowide", "zerodemand"]
         which = kinds[edge_index % len(kinds)] if edge_index is not None else rng.choice(kinds)
         obs.sort(key=lambda o: o["start"])
         if len(obs) < 2 and which in ("threshold2", "hotfit", "ingestlimit", "arrays", "handover"):
@@ -406,6 +435,15 @@ def make_spec(stream, rng, edge_index=None):
             spec["hot"] = {"capacity": 100, "rate": 50}
             spec["cold"] = {"capacity": 42, "rate": 5}
             spec["planning"], spec["scheduling"] = "batch", {"kind": "queue"}
+        elif which == "zerodemand":
+            # an observation that needs no array at all (legal: it is ready whenever 0 <= free arrays), observed on its
+            # own after the others: while it runs the telescope is busy although no array is in use
+            last = max(o["start"] + o["duration"] for o in obs)
+            z = dict(obs[0], name="z", start=last + rng.randint(3, 8), duration=rng.randint(2, 4),
+                     workflow=simgen.gen_workflow(rng, 3, [m["flops"] for m in spec["machines"]]))
+            spec["observations"] = obs = obs + [z]
+            opt["zero_demand"] = "z"
+            opt["only_props"] = ["C19"]
         elif which == "toowide":
             # an observation that asks for more arrays than the telescope has: it can never be observed, the run
             # never completes - and no idleness query may say otherwise (only the queries are judged on this run)
@@ -462,6 +500,10 @@ def make_spec(stream, rng, edge_index=None):
             tot = sum(o["rate"] * o["duration"] for o in obs)
             spec["hot"]["capacity"] = int(tot / 0.6) + 5
             spec["cold"]["capacity"] = spec["hot"]["capacity"] + 5
+        if opt.get("zero_demand"):
+            for o in obs:
+                if o["name"] == opt["zero_demand"]:
+                    o["demand"] = 0
         opt["edge"] = which
     elif stream == "shutdown":
         # the public Scheduler.shutdown() called at a pause point with observations still queued: the scheduler
@@ -684,6 +726,9 @@ def run_case(job):
         for v in rec.get("violations", []):
             if adversary and v["prop"] in ("C03", "C06", "C15"):
                 continue          # stated for the shipped algorithms only
+            ok_kinds = (opt.get("only_kinds") or {}).get(v["prop"])
+            if ok_kinds is not None and v["kind"] not in ok_kinds:
+                continue          # this stream is outside the envelope of the other clauses of that property
             v = dict(v)
             v.setdefault("sig", v["kind"])
             viol.append(v)
